@@ -28,6 +28,12 @@ Binary ==
     /\ ValP(LMul(a, b)) = M(BNMul(Val(a), Val(b))) /\ Within(LMul(a, b), bs)
     /\ MulFits(a, b)
     /\ (ValP(a) = ValP(b) <=> Val(Reduce(a)) = Val(Reduce(b)))                      \* Equal via canonical bytes
+    \* SetWideBytes: two decoded halves (canonical limbs) and their two spare top bits
+    /\ LET lo == OfVal(Val(a))  hi == OfVal(Val(b))  K == W * NL IN
+         \A lm \in {0, 1} : \A hm \in {0, 1} :
+            /\ ValP(LSetWide(lo, lm, hi, hm)) = M(BNAdd(BNAdd(Val(lo), BNShl(BNOfInt(lm), K)),
+                                                        BNAdd(BNShl(Val(hi), K + 1), BNShl(BNOfInt(hm), 2 * K + 1))))
+            /\ Within(LSetWide(lo, lm, hi, hm), bs)
 Unary ==
     /\ ValP(LSquare(a)) = M(BNMul(Val(a), Val(a))) /\ Within(LSquare(a), bs)
     /\ ValP(LNeg(a)) = M(BNSub(LP, ValP(a))) /\ Within(LNeg(a), bs)
